@@ -788,9 +788,54 @@ def d1r_data_not_rebound(chk: Check, funcs: List[FuncInfo]) -> None:
         raise AnalysisError("re-bindings of data parameters not found")
 
 
+def d1s_set_members(chk: Check, funcs: List[FuncInfo]) -> None:
+    """The coordinates of a set member are (the set, the member itself):
+    that is what `_delete_nodes` discards and what `_update_node` looks for.
+    Text that merely *compares equal* to the member after unwrapping (a
+    tagged member against the segment's text) is not in the set."""
+    prog = chk.prog
+    chk.rule("C02-D1s", "every NodeCoords yielded for a member of a set "
+             "carries the member itself (the loop variable) as node and as "
+             "parentref", floor=5)
+    for fi in funcs:
+        for loop in walk_local(fi.node):
+            if not (isinstance(loop, ast.For) and
+                    isinstance(loop.target, ast.Name) and
+                    isinstance(loop.iter, ast.Name)):
+                continue
+            in_set = any(
+                f.kind == "cond" and f.pol and isinstance(f.expr, ast.Call)
+                and src(f.expr.func) == "isinstance" and
+                src(f.expr.args[0]) == loop.iter.id and
+                "Set" in src(f.expr.args[1]) for f in facts_at(loop))
+            if not in_set:
+                continue
+            member, cont = loop.target.id, loop.iter.id
+            for c in walk_local(loop):
+                if not (isinstance(c, ast.Call) and
+                        src(c.func) == "NodeCoords" and len(c.args) >= 3
+                        and src(c.args[1]) == cont):
+                    continue
+                text = "{}: NodeCoords({}, {}, {}, ...)".format(
+                    fi.short, src(c.args[0])[:20], cont,
+                    src(c.args[2])[:20])
+                if src(c.args[0]) == member and src(c.args[2]) == member:
+                    chk.ok("C02-D1s", fi, c, text, "member as node and "
+                           "parentref")
+                else:
+                    chk.fail("C02-D1s", fi, c, text,
+                             "the coordinates of a set member name `{}` as "
+                             "node and `{}` as parentref instead of the "
+                             "member `{}`: for a tagged member the text is "
+                             "not in the set (delete raises KeyError, set "
+                             "changes nothing)".format(
+                                 src(c.args[0]), src(c.args[2]), member))
+
+
 def run(chk: Check) -> None:
     funcs = evaluator_functions(chk.prog)
     d1_sites(chk, funcs)
+    d1s_set_members(chk, funcs)
     d1r_data_not_rebound(chk, funcs)
     d2_calls(chk, funcs)
     d3_immutable(chk, funcs)
